@@ -1001,9 +1001,14 @@ func (y *ifFeatureEval) end() bool {
 	return y.pos >= len(y.expr)
 }
 
+// isSep is true for the separators of RFC 7950 Sec 14: space, tab and line break
+func isSep(c byte) bool {
+	return c == ' ' || c == '\t' || c == '\n' || c == '\r'
+}
+
 func (y *ifFeatureEval) eatws() {
 	for !y.end() {
-		if y.expr[y.pos] != ' ' {
+		if !isSep(y.expr[y.pos]) {
 			break
 		}
 		y.pos++
@@ -1015,7 +1020,7 @@ func (y *ifFeatureEval) next() string {
 	start := y.pos
 	for !y.end() {
 		switch y.expr[y.pos] {
-		case ' ':
+		case ' ', '\t', '\n', '\r':
 			goto brk
 		case '(', ')':
 			if y.pos == start {
